@@ -352,6 +352,9 @@ func init() {
 	})
 }
 
+var freshFlip int
+var freshKeep [][]byte
+
 // c11fresh: scenarios built from scratch many times in one process; Go randomises every map iteration, so a result that depends on
 // it shows up as two different result strings for the same scenario. stdout: one line per scenario {name, results: {string: count}}.
 func init() {
@@ -390,6 +393,17 @@ func init() {
 				_ = u.AddType("@V", v)
 				_ = v.AddType("@W", w)
 				return errStr(r.Check()) + " | " + errStr(r.Validate(jdoc.New("d", `{"t":{"u":[{"w":"x","s":null}]}}`)))
+			}},
+			{"two broken unnamed types (members of type shortcuts) in two files, the types loaded in either order", func() string {
+				freshFlip++
+				tt := [][2]string{{"@t0", `@missing | @t1`}, {"@t1", `@missing | @t0`}}
+				if freshFlip%2 == 0 {
+					tt[0], tt[1] = tt[1], tt[0]
+				}
+				if freshFlip%3 == 0 {
+					freshKeep = append(freshKeep, make([]byte, 64+freshFlip%512)) // moves the allocator on
+				}
+				return errStr(mk(`@t0`, tt).Check())
 			}},
 			{"two types with a broken allOf rule", func() string {
 				return errStr(mk(`1`, [][2]string{{"@A", "{ // {allOf: \"@X\"}\n}"}, {"@B", "{ // {allOf: \"@I\"}\n}"}, {"@I", "1"}}).Check())
